@@ -146,6 +146,34 @@ func (r *Runner) lightBigUndo(l *Line) *World {
 		return w
 	}
 	lc.H = newH
+	// after the very large block the cached proof verifies against the new state and is what a
+	// full prover gives for the same leaves
+	{
+		what := fmt.Sprintf("after Proof.Update for a block with %d additions", K)
+		w.lightVerify(in, lc, []string{"C07"}, what)
+		leaves := make([]utreexo.Leaf, len(ba.adds))
+		for i, a := range ba.adds {
+			leaves[i] = utreexo.Leaf{Hash: a}
+		}
+		if lc.full != nil && len(lc.H) > 0 {
+			if e := lc.full.Modify(leaves, ba.dels, utreexo.Proof{Targets: ba.targets, Proof: ba.proof}); e == nil {
+				fp, e := lc.full.Prove(lc.H)
+				if e != nil {
+					w.fail([]string{"C07"}, in, "hold.fullprover", what+": the full prover cannot prove the held leaves: "+e.Error(), nil, nil)
+				} else if !eqU64s(fp.Targets, lc.P.Targets) || len(fp.Proof) != len(lc.P.Proof) {
+					w.fail([]string{"C07"}, in, "hold.fullprover", what+": the cached proof differs from the full prover's proof (targets / number of hashes)",
+						[]any{fp.Targets, len(fp.Proof)}, []any{lc.P.Targets, len(lc.P.Proof)})
+				} else {
+					for i := range fp.Proof {
+						if fp.Proof[i] != lc.P.Proof[i] {
+							w.fail([]string{"C07"}, in, "hold.fullprover", what+fmt.Sprintf(": proof hash %d differs from the full prover's", i), nil, nil)
+							break
+						}
+					}
+				}
+			}
+		}
+	}
 	nBig := w.big(w.n + uint64(K))
 	Rprev := w.rows(w.n)
 	var undone []Hash
